@@ -62,7 +62,17 @@ func c16Package(r *RNG) []c16Decl {
 			if nFld[i] > 2 {
 				extra = fmt.Sprintf(" + t.F%d_%d", i, 2+r.Intn(nFld[i]-2))
 			}
-			ds = append(ds, c16Decl{fmt.Sprintf("func (t *T%d) M%d(x int) int {\n\tmark(\"T%d.M%d\", x)\n\treturn t.A*%d + x + helper%d(x)%s\n}", i, m, i, m, 2+m, r.Intn(nF), extra), true})
+			// a type declared inside one method may be named like a package-level function that its sibling methods (and
+			// other functions) call: the name means the type only inside the body that declares it
+			local := ""
+			switch r.Intn(4) {
+			case 0:
+				ln := Pick(r, []string{"sa", "sc", "mark2"})
+				local = fmt.Sprintf("\ttype %s struct {\n\t\tv int\n\t}\n\tq := &%s{v: x + 1}\n\tx = q.v - 1\n", ln, ln)
+			case 1:
+				extra += " + sa(x) + sc(x) + mark2(x)"
+			}
+			ds = append(ds, c16Decl{fmt.Sprintf("func (t *T%d) M%d(x int) int {\n%s\tmark(\"T%d.M%d\", x)\n\treturn t.A*%d + x + helper%d(x)%s\n}", i, m, local, i, m, 2+m, r.Intn(nF), extra), true})
 		}
 	}
 	for i := 0; i < nF; i++ {
@@ -74,11 +84,20 @@ func c16Package(r *RNG) []c16Decl {
 			t := r.Intn(nT)
 			body += fmt.Sprintf(" + (&T%d{A: x, B: 1}).B", t)
 		}
-		ds = append(ds, c16Decl{fmt.Sprintf("func helper%d(x int) int {\n\tif x < 0 {\n\t\treturn 0\n\t}\n\treturn %s\n}", i, body), true})
+		local := ""
+		switch r.Intn(5) {
+		case 0:
+			ln := Pick(r, []string{"sa", "sc", "mark2"})
+			local = fmt.Sprintf("\ttype %s struct {\n\t\tv int\n\t}\n\tq := &%s{v: x + 1}\n\tx = q.v - 1\n", ln, ln)
+		case 1:
+			body += " + sa(x) + mark2(x)"
+		}
+		ds = append(ds, c16Decl{fmt.Sprintf("func helper%d(x int) int {\n\tif x < 0 {\n\t\treturn 0\n\t}\n%s\treturn %s\n}", i, local, body), true})
 	}
 	ds = append(ds, c16Decl{"func mark(s string, v int) int {\n\tprintln(s, v)\n\treturn v\n}", true})
 	// parameters and locals named like package-level functions (valid Go: the local wins wherever the function is declared)
 	ds = append(ds, c16Decl{"func sa(x int) int {\n\treturn x + 1\n}", true})
+	ds = append(ds, c16Decl{"func mark2(x int) int {\n\treturn x * 3\n}", true})
 	ds = append(ds, c16Decl{"func sb(v int, sa int) int {\n\tsc := sa * 2\n\treturn v*10 + sa + sc\n}", true})
 	ds = append(ds, c16Decl{"func sc(x int) int {\n\treturn x + 100\n}", true})
 	sh1, sh2 := r.Intn(nF), r.Intn(nF)
